@@ -8,6 +8,7 @@ import (
 	"fmt"
 	"io"
 	"math/big"
+	"os"
 	"time"
 
 	"github.com/jackc/pgx/v5/pgconn"
@@ -133,7 +134,10 @@ func (c *conn) ExecContext(ctx context.Context, query string, args []driver.Name
 	if err != nil {
 		return nil, err
 	}
-	_, n, err := c.s.Exec(query, params)
+	rs, n, err := c.s.Exec(query, params)
+	if trace {
+		traceOut(c.s.ID, query, rs, err)
+	}
 	if err != nil {
 		return nil, convertErr(err)
 	}
@@ -149,6 +153,9 @@ func (c *conn) QueryContext(ctx context.Context, query string, args []driver.Nam
 		return nil, err
 	}
 	rs, _, err := c.s.Exec(query, params)
+	if trace {
+		traceOut(c.s.ID, query, rs, err)
+	}
 	if err != nil {
 		return nil, convertErr(err)
 	}
@@ -339,3 +346,33 @@ func toDriver(v Value) (driver.Value, error) {
 }
 
 var _ = big.NewInt
+
+var trace = os.Getenv("PGSIM_TRACE") != ""
+
+func traceOut(sess int, q string, rs *RowSet, err error) {
+	if len(q) > 3000 {
+		q = q[:3000] + "…"
+	}
+	fmt.Fprintf(os.Stderr, "[pgsim s%d] %s\n", sess, q)
+	if err != nil {
+		fmt.Fprintf(os.Stderr, "   => ERROR %v\n", err)
+		return
+	}
+	if rs != nil {
+		fmt.Fprintf(os.Stderr, "   => %d rows %v\n", len(rs.Rows), rs.Cols)
+		for i, r := range rs.Rows {
+			if i >= 5 {
+				break
+			}
+			var parts []string
+			for _, v := range r {
+				t, _ := textOf(v)
+				if v == nil {
+					t = "NULL"
+				}
+				parts = append(parts, t)
+			}
+			fmt.Fprintf(os.Stderr, "      %v\n", parts)
+		}
+	}
+}
